@@ -228,7 +228,7 @@ def run_vh_parallel(vh, args, items, nproc=None, timeout=1800, env=None):
                     out.append(json.loads(line))
                 except Exception:
                     pass
-        err = p.stderr[-4000:]
+        err = p.stderr[-200000:]
         if p.returncode not in (0, 1):
             os.makedirs(WORK, exist_ok=True)
             fp = os.path.join(WORK, "failed-chunk-%d-%d.ndjson" % (os.getpid(), id(chunk) % 100000))
